@@ -1044,6 +1044,49 @@ fn scenarios() -> Vec<(&'static str, G, Vec<T>)> {
     v.push(("s6_grandparent_capture_const_cond", top.clone(), vec![d(2, &[1, -2]), T::scalar(1)]));
     v.push(("s6_grandparent_capture_const_cond_else", top, vec![d(2, &[1, -2]), T::scalar(0)]));
 
+    // s8 (suggested by b-C25): two-level capture through If -> If where the innermost branch reads
+    // the top-level temp `5` in a NON-in-place position. (a) the middle graph uses `5` itself as well
+    // (then `5` is named twice in the outer If's capture_names => count 2 => never moved by value);
+    // (b) the middle graph does not mention `5` (then it has no node for it and cannot re-capture it).
+    for direct in [true, false] {
+        let g2t = G { inputs: vec![], consts: vec![], ops: vec![Op::P { k: K::Sub, ins: vec![1, 5], out: 202 }], outputs: vec![202] };
+        let g2e = G { inputs: vec![], consts: vec![], ops: vec![Op::P { k: K::Id, ins: vec![1], out: 203 }], outputs: vec![203] };
+        let mut ops = Vec::new();
+        if direct {
+            ops.push(Op::P { k: K::Add, ins: vec![5, 1], out: 200 });
+        } else {
+            ops.push(Op::P { k: K::Neg, ins: vec![1], out: 200 });
+        }
+        ops.push(Op::If { cond: 3, t: g2t, e: g2e, outs: vec![204] });
+        ops.push(Op::P { k: K::Add, ins: vec![200, 204], out: 205 });
+        let g1 = G { inputs: vec![], consts: vec![], ops, outputs: vec![205] };
+        let g1e = G { inputs: vec![], consts: vec![], ops: vec![Op::P { k: K::Id, ins: vec![1], out: 206 }], outputs: vec![206] };
+        let top = G {
+            inputs: vec![1, 2, 3],
+            consts: vec![],
+            ops: vec![Op::P { k: K::Mul, ins: vec![1, 2], out: 5 }, Op::If { cond: 3, t: g1, e: g1e, outs: vec![6] }],
+            outputs: vec![6],
+        };
+        v.push((
+            if direct { "s8a_two_level_capture_if_if_direct" } else { "s8b_two_level_capture_if_if_indirect" },
+            top,
+            vec![d(2, &[1, 2]), d(2, &[3, 4]), T::scalar(1)],
+        ));
+    }
+
+    // s9 (reported by b-C25): a branch whose OUTPUT is directly an outer-scope value, with no
+    // operator in between. The ONNX loader creates a value node for the output but only marks
+    // names used by the subgraph's *operators* as captures => "Source node not found for output".
+    let t = G { inputs: vec![], consts: vec![], ops: vec![], outputs: vec![5] };
+    let e = G { inputs: vec![], consts: vec![], ops: vec![Op::P { k: K::Id, ins: vec![1], out: 30 }], outputs: vec![30] };
+    let top = G {
+        inputs: vec![1, 2, 3],
+        consts: vec![],
+        ops: vec![Op::P { k: K::Mul, ins: vec![1, 2], out: 5 }, Op::If { cond: 3, t, e, outs: vec![6] }],
+        outputs: vec![6],
+    };
+    v.push(("s9_branch_returns_capture", top, vec![d(2, &[1, 2]), d(2, &[3, 4]), T::scalar(1)]));
+
     // s7: two outputs that are Identity of the same constant (optimizer: b-C01's finding).
     let top = G {
         inputs: vec![1],
